@@ -234,7 +234,7 @@ Definition c_toupper (c : N) : Z := tbl_get 0%Z gen_toupper c.
 Definition c_value (c : N) : Z := tbl_get 0%Z gen_char_value c.
 Definition to_char (z : Z) : N := Z.to_N (z mod 256).    (* int -> char -> stored byte *)
 
-(* SBuf::toLower() / toUpper(): for j < length(): c = (*this)[j]; if is(c) setAt(j, to(c)) *)
+(* SBuf::toLower() / toUpper(): for j < length(): c = this->operator[](j); if is(c) setAt(j, to(c)) *)
 Fixpoint case_loop (is : N -> bool) (to : N -> Z) (todo : bytes) (j : N) (h : heap) (s : sbuf) : res (heap * sbuf) :=
   match todo with
   | [] => Ok (h, s)
@@ -395,15 +395,156 @@ Definition sb_eq (a s : bytes) : bool :=
 (* copy(dest, n) *)
 Definition sb_copy (a : bytes) (n : N) : bytes := takeN (N.min n (lenN a)) a.
 
-(* compare(const char *s, isCaseSensitive, n), s = the bytes of a NUL-terminated array (w ++ [0]) *)
-Fixpoint cstr_loop (f : N -> Z) (left right : bytes) (byteCount : N) : Z * bytes * N :=
-  (* returns (rv, right after the last `*right++`, byteCount) *)
-  match left, right with
-  | x :: l', y :: r' =>
-      let rv := (f x - f y)%Z in
-      if negb (rv =? 0)%Z then (rv, r', byteCount)
-      else if (x =? 0) || (byteCount - 1 =? 0) then (rv, r', byteCount - 1 + (if x =? 0 then 1 else 0) * 0
-                                                           + (if x =? 0 then 1 else 0) * 0)
-      else cstr_loop f l' r' (byteCount - 1)
-  | _, _ => (0%Z, right, byteCount)
+
+(* ---------- operation sequences over a set of SBuf variables ---------- *)
+Record state := mkState { hp : heap; vars : list sbuf }.
+
+Fixpoint upd {A} (l : list A) (i : nat) (x : A) : list A :=
+  match l, i with
+  | [], _ => []
+  | _ :: r, O => x :: r
+  | y :: r, S k => y :: upd r k x
   end.
+Definition sb0 : sbuf := mkSBuf 0 0 0.            (* SBuf(): store_ = GetStorePrototype() = blob 0 *)
+Definition getv (st : state) (i : nat) : sbuf := nth i (vars st) sb0.
+
+Inductive query :=
+| QLen | QAt (pos : N) | QCopy (n : N)
+| QFindChar (c pos : N) | QFind (j : nat) (pos : N) | QRfindChar (c pos : N) | QRfind (j : nat) (pos : N)
+| QFirstOf (set : list bool) (pos : N) | QFirstNotOf (set : list bool) (pos : N)
+| QLastOf (set : list bool) (pos : N) | QLastNotOf (set : list bool) (pos : N)
+| QCompare (j : nat) (ci : bool) (n : N) | QStartsWith (j : nat) (ci : bool) | QEq (j : nat).
+
+Inductive op :=
+| OSet (i : nat) (w : bytes)                 (* v[i].assign(ptr to external bytes w, |w|) *)
+| OAsg (i j : nat)                           (* v[i] = v[j] *)
+| OApp (i j : nat)                           (* v[i].append(v[j]) *)
+| OApl (i : nat) (w : bytes)                 (* v[i].append(ptr to external bytes w, |w|) *)
+| OApr (i j : nat) (off n : N)               (* v[i].append(v[j].rawContent()+off, n) *)
+| OAsr (i j : nat) (off n : N)               (* v[i].assign(v[j].rawContent()+off, n) *)
+| OPsh (i : nat) (c : N)                     (* v[i].push_back(c) *)
+| OCon (d i : nat) (n : N)                   (* v[d] = v[i].consume(n) *)
+| OChp (i : nat) (pos n : N)                 (* v[i].chop(pos, n) *)
+| OSub (d i : nat) (pos n : N)               (* v[d] = v[i].substr(pos, n) *)
+| OTrm (i j : nat) (atBeginning atEnd : bool) (* v[i].trim(v[j], atBeginning, atEnd) *)
+| OSat (i : nat) (pos c : N)                 (* v[i].setAt(pos, c) *)
+| OLow (i : nat) | OUpp (i : nat) | OClr (i : nat)
+| ORsv (i : nat) (n : N)                     (* reserveSpace *)
+| ORcp (i : nat) (n : N)                     (* reserveCapacity *)
+| ORsq (i : nat) (ideal minSpace maxCap : N) (allowShared : bool)   (* reserve(req) *)
+| ORaw (i : nat) (n : N) (w : bytes)         (* rawAppendStart(n); store w; rawAppendFinish(p, |w|) *)
+| OCst (i : nat)                             (* c_str() *)
+| OQuery (i : nat) (q : query).
+
+Inductive out :=
+| RVoid | RNum (n : N) | RInt (z : Z) | RBytes (b : bytes) | RThrow | RShort | RSkip | RUndef.
+
+Section Step.
+Variable alloc_cap : N -> N.
+
+Definition init_state (nv : nat) : state :=
+  mkState [mkBlob [] (alloc_cap 0) (1 + N.of_nat nv)] (repeat sb0 nv).
+
+Definition fin (st : state) (i : nat) (r : res (heap * sbuf)) : state * out :=
+  match r with
+  | Ok (h, s) => (mkState h (upd (vars st) i s), RVoid)
+  | Throw h => (mkState h (vars st), RThrow)
+  | Undef => (st, RUndef)
+  end.
+
+(* v[d] = std::move(temporary rv): RefCount move-assignment releases v[d]'s old blob *)
+Definition move_into (h : heap) (vs : list sbuf) (d : nat) (rv : sbuf) : state :=
+  mkState (unlock h (sstore (nth d vs sb0))) (upd vs d rv).
+
+Definition cstring (c : bytes) : bytes := fst (span (fun x => negb (x =? 0)) c).
+Definition b2n (b : bool) : N := if b then 1 else 0.
+
+Definition run_query (st : state) (i : nat) (q : query) : out :=
+  let a := content (hp st) (getv st i) in
+  let arg j := content (hp st) (getv st j) in
+  match q with
+  | QLen => RNum (slen (getv st i))
+  | QAt pos => if pos <? slen (getv st i) then
+                 match nthN pos a with Some c => RNum c | None => RUndef end
+               else RThrow
+  | QCopy n => RBytes (sb_copy a n)
+  | QFindChar c pos => RNum (sb_find_char a c pos)
+  | QFind j pos => RNum (sb_find a (arg j) pos)
+  | QRfindChar c pos => RNum (sb_rfind_char a c pos)
+  | QRfind j pos => RNum (sb_rfind a (arg j) pos)
+  | QFirstOf set pos => RNum (sb_findFirst a (mem_tbl set) pos)
+  | QFirstNotOf set pos => RNum (sb_findFirst a (fun c => negb (mem_tbl set c)) pos)
+  | QLastOf set pos => RNum (sb_findLast a (mem_tbl set) pos)
+  | QLastNotOf set pos => RNum (sb_findLast a (fun c => negb (mem_tbl set c)) pos)
+  | QCompare j ci n => RInt (sb_compare a (arg j) ci n)
+  | QStartsWith j ci => RNum (b2n (sb_startsWith a (arg j) ci))
+  | QEq j => RNum (b2n (sb_eq a (arg j)))
+  end.
+
+Definition step (st : state) (o : op) : state * out :=
+  let h := hp st in
+  match o with
+  | OSet i w => fin st i (sb_assign_raw alloc_cap h (getv st i) (SLit w) (lenN w))
+  | OAsg i j => if Nat.eqb i j then (st, RVoid)
+                else let '(h1, s1) := sb_assign h (getv st i) (getv st j) in
+                     (mkState h1 (upd (vars st) i s1), RVoid)
+  | OApp i j => fin st i (sb_append alloc_cap h (getv st i) (getv st j) (Nat.eqb i j))
+  | OApl i w => fin st i (sb_append_raw alloc_cap h (getv st i) (SLit w) (lenN w))
+  | OApr i j off n =>
+      let S := getv st j in
+      if slen S <? off + n then (st, RSkip)
+      else fin st i (sb_append_raw alloc_cap h (getv st i) (SPtr (sstore S) (soff S + off)) n)
+  | OAsr i j off n =>
+      let S := getv st j in
+      if slen S <? off + n then (st, RSkip)
+      else fin st i (sb_assign_raw alloc_cap h (getv st i) (SPtr (sstore S) (soff S + off)) n)
+  | OPsh i c => fin st i (lowAppend alloc_cap h (getv st i) (SLit [c]) 1)
+  | OCon d i n0 =>
+      let s := getv st i in
+      let n := if n0 =? npos then slen s else N.min n0 (slen s) in
+      let '(h1, rv) := sb_substr h s 0 n in
+      let '(h2, s') := sb_chop h1 s n npos in
+      (move_into h2 (upd (vars st) i s') d rv, RVoid)
+  | OChp i pos n => let '(h1, s1) := sb_chop h (getv st i) pos n in
+                    (mkState h1 (upd (vars st) i s1), RVoid)
+  | OSub d i pos n =>
+      let '(h1, rv) := sb_substr h (getv st i) pos n in
+      (move_into h1 (vars st) d rv, RVoid)
+  | OTrm i j b e =>
+      let '(h1, s1) := sb_trim h (getv st i) (content h (getv st j)) (Nat.eqb i j) b e in
+      (mkState h1 (upd (vars st) i s1), RVoid)
+  | OSat i pos c => fin st i (sb_setAt alloc_cap h (getv st i) pos c)
+  | OLow i => fin st i (sb_toLower alloc_cap h (getv st i))
+  | OUpp i => fin st i (sb_toUpper alloc_cap h (getv st i))
+  | OClr i => let '(h1, s1) := sb_clear h (getv st i) in (mkState h1 (upd (vars st) i s1), RVoid)
+  | ORsv i n => fin st i (sb_reserveSpace alloc_cap h (getv st i) n)
+  | ORcp i n => fin st i (sb_reserveCapacity alloc_cap h (getv st i) n)
+  | ORsq i ideal mn mx sh =>
+      match sb_reserve alloc_cap h (getv st i) ideal mn mx sh with
+      | Ok (h1, s1) => (mkState h1 (upd (vars st) i s1), RNum (sb_spaceSize h1 s1))
+      | Throw h1 => (mkState h1 (vars st), RThrow)
+      | Undef => (st, RUndef)
+      end
+  | ORaw i n w =>
+      match sb_rawAppend alloc_cap h (getv st i) n w with
+      | RawOk h1 s1 => (mkState h1 (upd (vars st) i s1), RVoid)
+      | RawShort h1 s1 => (mkState h1 (upd (vars st) i s1), RShort)
+      | RawThrow h1 => (mkState h1 (vars st), RThrow)
+      | RawUndef => (st, RUndef)
+      end
+  | OCst i =>
+      match sb_c_str alloc_cap h (getv st i) with
+      | Ok (h1, s1) => (mkState h1 (upd (vars st) i s1), RBytes (cstring (content h1 s1)))
+      | Throw h1 => (mkState h1 (vars st), RThrow)
+      | Undef => (st, RUndef)
+      end
+  | OQuery i q => (st, run_query st i q)
+  end.
+
+End Step.
+
+(* what an observer of the variables can see *)
+Definition sb_broken (h : heap) (s : sbuf) : bool :=
+  let b := getb h (sstore s) in (bsize b <? soff s + slen s) || (bcap b <? bsize b).
+Definition first_broken (st : state) : option N :=
+  index_of (sb_broken (hp st)) (map (fun s => s) (vars st)) .
